@@ -7,6 +7,7 @@ import (
 	"sort"
 	"sync"
 	"testing/synctest"
+	"time"
 
 	"github.com/ElrondNetwork/elrond-go/core"
 	"github.com/ElrondNetwork/elrond-go/core/throttler"
@@ -41,8 +42,15 @@ const (
 	varOtherShard
 	varAntiflood
 	varProcessorError
+	varWrongVersion // CheckValidity fails with process.ErrInvalidTransactionVersion (the interceptors blacklist the peer)
+	varWrongChainID // CheckValidity fails with process.ErrInvalidChainID (same special path)
 	numVariants
 )
+
+// validityFamily: variants that make CheckValidity of one item fail.
+func validityFamily(v int) bool {
+	return v == varInvalid || v == varWrongVersion || v == varWrongChainID
+}
 
 var errStub = errors.New("floodsim: planned failure")
 
@@ -51,6 +59,9 @@ var errStub = errors.New("floodsim: planned failure")
 func genC43(r *simkit.Rand, tier string) *simkit.Plan {
 	p := &simkit.Plan{Arm: "faultfree", Knobs: map[string]int64{}}
 	p.Knobs["comp"] = int64(r.Intn(3))
+	if r.Chance(0.35) {
+		return genC43PoisonBurst(r, p)
+	}
 	max := r.Range(1, 3)
 	p.Knobs["max"] = int64(max)
 	nTasks := r.Range(2, 6)
@@ -92,6 +103,51 @@ func genC43(r *simkit.Rand, tier string) *simkit.Plan {
 	return p
 }
 
+// genC43PoisonBurst: first 1-3 messages whose item fails CheckValidity (generic / wrong version / wrong chain id, or another
+// early-exit variant) are processed to completion one after the other, then a burst of valid multi-item messages arrives
+// whose processing is slow (each is admitted and started, its processing stays parked): a throttler counter that an
+// error path released once too often shows as over-admission in the burst.
+func genC43PoisonBurst(r *simkit.Rand, p *simkit.Plan) *simkit.Plan {
+	p.Knobs["shape"] = 1
+	if p.Knobs["comp"] == compResolver && r.Chance(0.7) {
+		p.Knobs["comp"] = int64(r.Intn(2))
+	}
+	max := r.Range(1, 2)
+	p.Knobs["max"] = int64(max)
+	nPoison := r.Range(1, 3)
+	nBurst := r.Range(max+1, max+2)
+	if nPoison+nBurst > 6 {
+		nBurst = 6 - nPoison
+	}
+	nTasks := nPoison + nBurst
+	p.Knobs["n_tasks"] = int64(nTasks)
+	for t := 0; t < nTasks; t++ {
+		v, k := varOK, r.Range(1, 3)
+		if t < nPoison {
+			v = []int{varInvalid, varWrongVersion, varWrongChainID, varWrongVersion, varWrongChainID, varUndecodable, varOtherShard}[r.Intn(7)]
+		}
+		p.Knobs[fmt.Sprintf("t%d_var", t)] = int64(v)
+		p.Knobs[fmt.Sprintf("t%d_k", t)] = int64(k)
+	}
+	last := simkit.Step{Op: "release", I: []int64{-1}} // the goroutine that parked most recently
+	for t := 0; t < nPoison; t++ {
+		p.Steps = append(p.Steps, simkit.Step{Op: "spawn", I: []int64{int64(t)}})
+		for i := 0; i < 5; i++ { // CanProcess, StartProcessing, EndProcessing (+ spare): runs the message to its end
+			p.Steps = append(p.Steps, last)
+		}
+	}
+	for t := nPoison; t < nTasks; t++ {
+		p.Steps = append(p.Steps, simkit.Step{Op: "spawn", I: []int64{int64(t)}})
+		if r.Chance(0.85) {
+			p.Steps = append(p.Steps, last, last) // CanProcess, StartProcessing; the processing itself stays parked
+		}
+	}
+	for i := r.Range(0, 12); i > 0; i-- {
+		p.Steps = append(p.Steps, simkit.Step{Op: "release", I: []int64{int64(r.Intn(8))}})
+	}
+	return p
+}
+
 // ---- world ---------------------------------------------------------------------------------------
 
 type taskState struct {
@@ -116,18 +172,19 @@ type c43world struct {
 	taskOf map[uint64]int // goroutine -> task
 	tasks  []*taskState
 
-	log       []string
-	violKind  string
-	violMsg   string
-	contended bool
-	refused   int
-	windowHit int
-	doubleEnd int
-	maxSeen   int
-	states    map[[2]int]bool
-	panicMsg  string
-	panicSt   []byte
-	harness   string
+	log         []string
+	violKind    string
+	violMsg     string
+	contended   bool
+	refused     int
+	windowHit   int
+	doubleEnd   int
+	blacklisted int
+	maxSeen     int
+	states      map[[2]int]bool
+	panicMsg    string
+	panicSt     []byte
+	harness     string
 }
 
 // taskFor must be called with the lock held.
@@ -279,8 +336,13 @@ type stubData struct {
 }
 
 func (d *stubData) CheckValidity() error {
-	if d.variant == varInvalid {
+	switch d.variant {
+	case varInvalid:
 		return errStub
+	case varWrongVersion:
+		return process.ErrInvalidTransactionVersion
+	case varWrongChainID:
+		return process.ErrInvalidChainID
 	}
 	return nil
 }
@@ -347,7 +409,11 @@ func (w *c43world) build(c *simkit.Ctx) messageHandler {
 	}
 	switch w.comp {
 	case compSingle, compMulti:
-		af := &processMock.P2PAntifloodHandlerStub{CanProcessMessageCalled: antiflood}
+		af := &processMock.P2PAntifloodHandlerStub{CanProcessMessageCalled: antiflood, BlacklistPeerCalled: func(_ core.PeerID, _ string, _ time.Duration) {
+			w.mu.Lock()
+			w.blacklisted++
+			w.mu.Unlock()
+		}}
 		if w.comp == compSingle {
 			sdi, err := interceptors.NewSingleDataInterceptor(interceptors.ArgSingleDataInterceptor{
 				Topic: "verif", DataFactory: &stubFactory{w}, Processor: &stubProcessor{w}, Throttler: gt, AntifloodHandler: af,
@@ -391,7 +457,13 @@ func (w *c43world) message(t *taskState) p2p.MessageP2P {
 		FromField: []byte(fmt.Sprintf("origin-%d", t.id)), PeerField: core.PeerID(fmt.Sprintf("origin-%d", t.id)),
 		SeqNoField: []byte{byte(t.variant), byte(t.id)}, TopicField: "verif", SignatureField: []byte("sig"),
 	}
-	item := func(j int) []byte { return []byte{byte(t.id), byte(t.variant), byte(j)} }
+	item := func(j int) []byte {
+		v := t.variant
+		if validityFamily(v) && w.comp == compMulti && j != t.k-1 {
+			v = varOK // only the last item of a batch is the bad one: the items before it pass CheckValidity
+		}
+		return []byte{byte(t.id), byte(v), byte(j)}
+	}
 	switch w.comp {
 	case compSingle:
 		msg.DataField = item(0)
@@ -533,7 +605,7 @@ func execC43(c *simkit.Ctx) bool {
 				}
 				idx := int(st.Int(0, 0) % int64(len(ws)))
 				if idx < 0 {
-					idx = 0
+					idx += len(ws) // negative: counted from the most recently parked goroutine
 				}
 				c.Eventf("%d release %d/%d %s", i, idx, len(ws), ws[idx].Label)
 				w.parker.Release(idx)
@@ -577,6 +649,12 @@ func execC43(c *simkit.Ctx) bool {
 	}
 	if w.doubleEnd > 0 {
 		c.Probe("end_without_running_task")
+	}
+	if w.blacklisted > 0 {
+		c.Probe("peer_blacklisted_for_wrong_version_or_undecodable")
+	}
+	if p.Knob("shape", 0) == 1 {
+		c.Probe("poison_then_burst_run")
 	}
 	keys := make([][2]int, 0, len(w.states))
 	for k := range w.states {
